@@ -64,7 +64,7 @@ type lcOp struct {
 
 var lcOps = []lcOp{
 	{name: "Start(A,infinite)", start: "A", infinite: true},
-	{name: "Start(B,movetime 25ms)", start: "B"},
+	{name: "Start(B,movetime 65ms)", start: "B"}, // ends by itself (depth 1) long before its 45 ms budget
 	{name: "Start(C,ponder,wtime 300ms)", start: "C", ponder: true},
 	{name: "Start(D,infinite,single move)", start: "D", infinite: true},
 	{name: "Stop", stops: true},
@@ -140,11 +140,18 @@ func lcBody(prog []int) func() {
 			f()
 			sched.Record("return", name)
 		}
+		open := false // an infinite / ponder search was started (while idle) and not yet stopped or hit
 		for _, i := range prog {
 			o := lcOps[i]
+			if o.stops || o.hit {
+				open = false
+			}
 			switch {
 			case o.start != "":
 				busy := s.IsSearching()
+				if !busy {
+					open = o.infinite || o.ponder
+				}
 				sched.Record("start", fmt.Sprintf("%s busy=%v", o.start, busy))
 				var sl search.Limits
 				switch {
@@ -153,7 +160,7 @@ func lcBody(prog []int) func() {
 				case o.ponder:
 					sl = search.Limits{Ponder: true, TimeControl: true, WhiteTime: 300 * time.Millisecond, BlackTime: 300 * time.Millisecond, Depth: 1}
 				default:
-					sl = search.Limits{TimeControl: true, MoveTime: 25 * time.Millisecond, Depth: 1}
+					sl = search.Limits{TimeControl: true, MoveTime: 65 * time.Millisecond, Depth: 1}
 				}
 				call(o.name, func() { s.StartSearch(*pos[o.start], sl) })
 			case o.name == "Stop":
@@ -178,6 +185,11 @@ func lcBody(prog []int) func() {
 			case o.idle > 0:
 				sched.Sleep(o.idle)
 			}
+		}
+		if open {
+			// the GUI lets an infinite / ponder search run for a while before it stops it: nothing may answer it meanwhile
+			// (long enough for the budget of an earlier time-controlled search to run out)
+			sched.Sleep(60 * time.Millisecond)
 		}
 		sched.Record("stop", "")
 		call("Stop", s.StopSearch)
@@ -276,6 +288,7 @@ func lcCheck(prog []int, x *sched.Exec) []lcVerdict {
 		infinite bool
 		ponder   bool
 		results  int
+		resT     time.Duration // virtual time of its result
 	}
 	var starts []*st
 	pi := 0
@@ -310,6 +323,7 @@ func lcCheck(prog []int, x *sched.Exec) []lcVerdict {
 		}
 		s := starts[owner]
 		s.results++
+		s.resT = e.T
 		if owner < lastResultStart {
 			v = append(v, lcVerdict{"result:out-of-order", "results delivered in a different order than the searches were started"})
 		}
@@ -327,10 +341,16 @@ func lcCheck(prog []int, x *sched.Exec) []lcVerdict {
 				if s.ponder {
 					mode = "ponder"
 				}
-				// what ended it? a leftover timer of an earlier time-controlled search is the known mechanism
+				// what ended it? The known mechanism (open finding): the timer thread of an earlier time-controlled search
+				// notices the end of its search only at its next poll (every 5 ms); a search started within that window
+				// resets the stop flag, the old timer lives on and later stops the new search. Only that history is
+				// classified under the known key: an earlier time-controlled search exists and either the victim was
+				// started no later than one polling period after its result, or the schedule contains a deviation (the
+				// old timer thread was preempted / not scheduled while the clock advanced, which keeps it alive in the same
+				// way). A search that is ended early on the default schedule outside that window is a different violation.
 				key := "early-end:" + mode + "-search-answered-before-stop"
 				for _, p := range starts[:owner] {
-					if !p.infinite { // an earlier time-controlled search (movetime, or ponder with clock) leaves a timer thread behind
+					if !p.infinite && p.results > 0 && (x.Events[s.idx].T-p.resT <= lcPollWindow || x.Deviations() > 0) {
 						key = "early-end:leftover-timer-of-earlier-search"
 					}
 				}
@@ -348,6 +368,9 @@ func lcCheck(prog []int, x *sched.Exec) []lcVerdict {
 	}
 	return v
 }
+
+// lcPollWindow: the polling period of the engine's timer thread (search.go startTimer sleeps 5 ms per iteration)
+const lcPollWindow = 5 * time.Millisecond
 
 func c14(tier string, args []string) int {
 	run := vl.NewRun("C14", tier)
